@@ -117,7 +117,11 @@ func goEnv() []string {
 	return env
 }
 
-func build() {
+// astNote says what the source rewriting for inserted yields did for this build ("" if the property has none).
+var astNote string
+var astOverlay bool
+
+func build(prop string) {
 	// Development aid (seed regression in parallel): VERIF_REPO_OVERRIDE builds against a
 	// scratch copy of the repository through an alternate go.mod; registered checks never set it.
 	repo := repoDir
@@ -144,12 +148,33 @@ func build() {
 	}
 	os.WriteFile(filepath.Join(simDir, "go.sum"), b, 0o644)
 	os.MkdirAll(filepath.Join(verifDir, "bin"), 0o755)
-	args := append([]string{"test", "-c"}, extra...)
-	args = append(args, "-tags", tags, "-o", binPath, "./worker")
-	cmd := exec.Command(goBin, args...)
-	cmd.Dir = simDir
-	cmd.Env = goEnv()
-	out, err := cmd.CombinedOutput()
+	run := func(overlay string) ([]byte, error) {
+		args := append([]string{"test", "-c"}, extra...)
+		if overlay != "" {
+			args = append(args, "-overlay", overlay)
+		}
+		args = append(args, "-tags", tags, "-o", binPath, "./worker")
+		cmd := exec.Command(goBin, args...)
+		cmd.Dir = simDir
+		cmd.Env = goEnv()
+		return cmd.CombinedOutput()
+	}
+	if len(astFiles[prop]) > 0 && os.Getenv("VERIF_NO_AST") == "" {
+		adir := filepath.Join(verifDir, ".scratch", fmt.Sprintf("ast-%d", os.Getpid()))
+		os.MkdirAll(adir, 0o755)
+		defer os.RemoveAll(adir)
+		overlay, note := instrument(repo, prop, adir)
+		astNote = note
+		if overlay != "" {
+			if out, err := run(overlay); err == nil {
+				astOverlay = true
+				return
+			} else {
+				astNote += "; the build of the rewritten files failed, plain build used: " + tail(string(out), 300)
+			}
+		}
+	}
+	out, err := run("")
 	if err != nil {
 		fmt.Fprintf(os.Stderr, "%s\n", out)
 		die(2, "INFRA: build of the simulation worker against %s failed: %v", repo, err)
@@ -312,7 +337,7 @@ func main() {
 		if len(os.Args) > 3 {
 			n, _ = strconv.Atoi(os.Args[3])
 		}
-		build()
+		build(os.Args[2])
 		dir := scratch()
 		defer os.RemoveAll(dir)
 		seed := envSeed(20260101)
@@ -408,7 +433,7 @@ func selftest(dir, prop string, seed uint64, episodes, reps int) string {
 
 func check(prop, tier string) int {
 	t0 := time.Now()
-	build()
+	build(prop)
 	dir := scratch()
 	defer os.RemoveAll(dir)
 	meta := loadMeta(prop)
@@ -428,6 +453,9 @@ func check(prop, tier string) int {
 	}
 	seed := envSeed(defSeed)
 	fmt.Printf("VERIF_SEED=%d property=%s tier=%s budget=%s\n", seed, prop, tier, budget)
+	if astNote != "" {
+		fmt.Printf("inserted yields: %s (overlay build used: %v)\n", astNote, astOverlay)
+	}
 
 	if tier == "thorough" {
 		if msg := selftest(dir, prop, splitmix(seed, 999), 40, 1); msg != "" {
@@ -693,6 +721,8 @@ func check(prop, tier string) int {
 			"components":                     map[string]interface{}{"real": meta.Real, "stub": meta.Stub},
 			"workers":                        nw,
 			"known_findings_seen":            keys(reportedKnown),
+			"inserted_yields":                astNote,
+			"inserted_yields_build":          astOverlay,
 		},
 		"assumptions": meta.Assumptions,
 		"wall_s":      wall,
@@ -887,13 +917,13 @@ func matchKnown(dir string, known []KnownFinding, v *ViolationRec, tag string) *
 }
 
 func replayCmd(path string) int {
-	build()
-	dir := scratch()
-	defer os.RemoveAll(dir)
 	var v ViolationRec
 	if err := readJSON(path, &v); err != nil {
 		die(2, "cannot read %s: %v", path, err)
 	}
+	build(v.Prop)
+	dir := scratch()
+	defer os.RemoveAll(dir)
 	want := v
 	v.Trace = nil
 	r, err := replayOnce(dir, &v, "cmd")
